@@ -6,19 +6,26 @@
 #define VERIF_TRACK_ERRORS
 #include "contracts/uri.h"
 #include <stdio.h>
-/* ASSUMED contract of snprintf(buf, 11, "%" PRIu32, port) (used as snprintf/uri_snprintf_contract): between 1 and 10
- * decimal digits (stated for one arbitrary position g_sw) and a terminating NUL.
- * WHICH digits is not modelled (the value round trip is exercised by the native unit). */
+/* ASSUMED model of snprintf(buf, 11, "%" PRIu32, port): between 1 and 10 decimal digits and a terminating NUL.  WHICH
+ * digits is not modelled (the value round trip is exercised by the native unit).  DFCC cannot instrument variadic
+ * functions, so the one call in uri.c is redirected textually to this non-variadic model. */
 size_t g_port_digits;
-int uri_snprintf_contract(char *s, size_t n, const char *fmt, ...)
-__CPROVER_requires(n >= 11 && __CPROVER_w_ok(s, n))
-__CPROVER_assigns(__CPROVER_object_upto(s, 11), g_port_digits)
-__CPROVER_ensures(g_port_digits >= 1 && g_port_digits <= 10 && __CPROVER_return_value == (int)g_port_digits)
-__CPROVER_ensures(s[g_port_digits] == 0)
-__CPROVER_ensures(g_sw < g_port_digits ==> s[g_sw] >= '0' && s[g_sw] <= '9')
-;
+static int uri_port_to_text(char *s, size_t n, uint32_t port) {
+    (void)port;
+    __CPROVER_assert(n >= 11 && __CPROVER_w_ok(s, n), "snprintf: room for 10 digits and the NUL");
+    size_t d = nondet_size_t();
+    __CPROVER_assume(d >= 1 && d <= 10);
+    for (size_t i = 0; i < 10; i++) {
+        if (i < d) { char c; __CPROVER_assume(c >= '0' && c <= '9'); s[i] = c; }
+    }
+    s[d] = 0;
+    g_port_digits = d;
+    return (int)d;
+}
+#define snprintf(buf, n, fmt, val) uri_port_to_text((buf), (n), (val))
 #include "source/byte_buf.c"
 #include "source/uri.c"
+#undef snprintf
 #include "contracts/uri_parser.h"
 
 #define B_SCHEME(o) ((o)->scheme.len ? (o)->scheme.len + 3 : (size_t)0)
